@@ -10,6 +10,8 @@ import (
 	"strconv"
 	"strings"
 
+	"golang.org/x/perf/benchfmt"
+	"golang.org/x/perf/benchproc"
 	"golang.org/x/perf/cmd/benchstat/internal/texttab"
 	"golang.org/x/perf/internal/verifh/hx"
 )
@@ -379,8 +381,141 @@ func tabCases(r *hx.Rand) {
 	}
 }
 
+// ---------------------------------------------------------------- key headers
+
+func showNodes(ns []*benchproc.KeyHeaderNode) string {
+	if len(ns) == 0 {
+		return "-"
+	}
+	var sb strings.Builder
+	var rec func(n *benchproc.KeyHeaderNode)
+	rec = func(n *benchproc.KeyHeaderNode) {
+		fmt.Fprintf(&sb, "{%d:%s:%d:%d", n.Field, hx.HexS(n.Value), n.Start, n.Len)
+		for _, c := range n.Children {
+			rec(c)
+		}
+		sb.WriteString("}")
+	}
+	for _, n := range ns {
+		rec(n)
+	}
+	return sb.String()
+}
+
+var khValues = []string{"a", "b", "", "é", "a b", "c"}
+
+func runKh(vals [][]string, nf int, tag string) {
+	defer func() {
+		if e := recover(); e != nil {
+			hx.Printf("crash %d %v\n", id, e)
+			id++
+		}
+	}()
+	names := []string{"f0", "f1", "f2", "f3"}[:nf]
+	var pp benchproc.ProjectionParser
+	proj, err := pp.Parse(strings.Join(names, ","), nil)
+	if err != nil {
+		panic(err)
+	}
+	var keys []benchproc.Key
+	for _, v := range vals {
+		res := &benchfmt.Result{Name: benchfmt.Name("X")}
+		for j, name := range names {
+			res.SetConfig(name, v[j])
+		}
+		keys = append(keys, proj.Project(res))
+	}
+	kh := benchproc.NewKeyHeader(keys)
+	// the field values as the real keys report them
+	fields := proj.FlattenedFields()
+	var ks []string
+	for _, k := range keys {
+		var fs []string
+		for _, f := range fields {
+			fs = append(fs, hx.HexS(k.Get(f)))
+		}
+		ks = append(ks, strings.Join(fs, ","))
+	}
+	hx.Printf("case %d kind=kh nf=%d nk=%d keys=%s tag=%s\n", id, len(fields), len(keys), strings.Join(ks, ";"), tag)
+	hx.Printf("obs %d tree=%s\n", id, showNodes(kh.Top))
+	// spec vocabulary: the header cells of every level, left to right, as ToText walks them
+	var lv []string
+	nodes := kh.Top
+	for len(nodes) > 0 {
+		var next []*benchproc.KeyHeaderNode
+		var cells []string
+		for _, n := range nodes {
+			cells = append(cells, fmt.Sprintf("%s:%d:%d", hx.HexS(n.Value), n.Start, n.Len))
+			next = append(next, n.Children...)
+		}
+		lv = append(lv, strings.Join(cells, ","))
+		nodes = next
+	}
+	for len(lv) < len(fields) && len(keys) == 0 {
+		lv = append(lv, "-")
+	}
+	if len(lv) == 0 {
+		lv = []string{"-"}
+	}
+	hx.Printf("sobs %d lv=%s\n", id, strings.Join(lv, "/"))
+	id++
+}
+
+func khCases(r *hx.Rand) {
+	// the example of the doc comment and repeated values in non-adjacent positions
+	runKh([][]string{{"1", "1", "1"}, {"1", "1", "2"}, {"2", "2", "2"}, {"2", "3", "3"}}, 3, "multi")
+	runKh([][]string{{"a"}, {"b"}, {"a"}}, 1, "repeat")
+	runKh([][]string{{"a", "x"}, {"b", "x"}, {"b", "x"}, {"a", "x"}}, 2, "multi+repeat+samechild")
+	runKh(nil, 0, "trivial")
+	n := hx.N(800, 30000)
+	for i := 0; i < n; i++ {
+		nf := r.Intn(5)
+		nk := r.Intn(9)
+		if r.Chance(1, 20) {
+			nk = 9 + r.Intn(20)
+		}
+		alpha := 1 + r.Intn(4)
+		vals := make([][]string, nk)
+		tags := map[string]bool{}
+		for a := range vals {
+			vals[a] = make([]string, nf)
+			for b := range vals[a] {
+				vals[a][b] = khValues[r.Intn(alpha)]
+			}
+			if a > 0 && r.Chance(1, 3) { // long common prefixes
+				copy(vals[a], vals[a-1][:r.Intn(nf+1)])
+			}
+		}
+		if nf >= 2 {
+			tags["multi"] = true
+		}
+		for a := 2; a < nk; a++ {
+			for b := 0; b < a-1; b++ {
+				if nf > 0 && vals[a][0] == vals[b][0] && vals[a-1][0] != vals[a][0] {
+					tags["repeat"] = true
+				}
+			}
+		}
+		if nk > 0 && nf > 0 {
+			tags["keys"] = true
+		}
+		var tl []string
+		for _, k := range []string{"keys", "multi", "repeat"} {
+			if tags[k] {
+				tl = append(tl, k)
+			}
+		}
+		tag := "trivial"
+		if len(tl) > 0 {
+			tag = strings.Join(tl, "+")
+		}
+		runKh(vals, nf, tag)
+	}
+}
+
 func main() {
 	defer hx.Flush()
 	r := hx.NewRand(16)
 	tabCases(r)
+	khCases(hx.NewRand(1016))
 }
